@@ -13,7 +13,8 @@ Open Scope string_scope.
 Inductive lval :=
 | LNil | LBool (b : bool) | LNum (z : Z) | LStr (s : string)
 | LTab (arr : list lval)                 (* array part t[1..n] *)
-| LStatus (s : string).                  (* the table { ok = s } made from a status reply *)
+| LStatus (s : string)                   (* the table { ok = s } made from a status reply *)
+| LFun (body : list stmt).               (* a parameterless local function (closure over the enclosing locals) *)
 
 Inductive outcome (A : Type) :=
 | OK (a : A)
@@ -45,6 +46,7 @@ Fixpoint lua_to_reply (fuel : nat) (v : lval) : reply :=
   | LNum z => RInt z
   | LStr s => RBulk s
   | LStatus s => RStatus s
+  | LFun _ => RNil
   | LTab l =>
       match fuel with
       | O => RNil
@@ -90,6 +92,7 @@ Definition type_name (v : lval) : string :=
   match v with
   | LNil => "nil" | LBool _ => "boolean" | LNum _ => "number" | LStr _ => "string"
   | LTab _ | LStatus _ => "table"
+  | LFun _ => "function"
   end.
 
 Definition lua_eq (a b : lval) : option bool :=          (* None: table identity, not modelled *)
@@ -99,6 +102,7 @@ Definition lua_eq (a b : lval) : option bool :=          (* None: table identity
   | LNum x, LNum y => Some (x =? y)%Z
   | LStr x, LStr y => Some (String.eqb x y)
   | (LTab _ | LStatus _), (LTab _ | LStatus _) => None
+  | LFun _, LFun _ => None
   | _, _ => Some false
   end.
 
@@ -334,6 +338,22 @@ Fixpoint exec (fuel : nat) (st : rstate) (e : env) (b : list stmt) {struct fuel}
                 | Some e' => OK (st1, e', SigNone)
                 | None => OUnsup ("assignment to a global: " ++ x)
                 end
+            | SAssignIndex x ek ex =>
+                do (st1, vk) <- eval f st e ek;
+                do (st2, v) <- eval f st1 e ex;
+                match lookup x e, vk with
+                | LTab l, LNum k =>
+                    let n := Z.of_nat (List.length l) in
+                    if has_nil l then OUnsup "element assignment on a table with holes"
+                    else if (k =? n + 1)%Z then
+                      match assign x (LTab (l ++ [v])) e with Some e' => OK (st2, e', SigNone) | None => OUnsup ("assignment to a global: " ++ x) end
+                    else if ((1 <=? k) && (k <=? n))%Z then
+                      match assign x (LTab (firstn (Z.to_nat (k - 1)) l ++ v :: skipn (Z.to_nat k) l)) e with
+                      | Some e' => OK (st2, e', SigNone) | None => OUnsup ("assignment to a global: " ++ x) end
+                    else OUnsup "element assignment outside 1 .. #t + 1"
+                | _, _ => OUnsup "element assignment on a non-array"
+                end
+            | SLocalFun fn body => OK (st, (fn, LFun body) :: e, SigNone)
             | SIf arms els =>
                 (fix go (st : rstate) (arms : list (expr * list stmt)) : outcome (rstate * env * signal) :=
                    match arms with
@@ -380,7 +400,17 @@ Fixpoint exec (fuel : nat) (st : rstate) (e : env) (b : list stmt) {struct fuel}
                          end
                        else OK (st1, e, SigNone)
                    end) f st e
-            | SCall ex => do (st1, _) <- eval f st e ex; OK (st1, e, SigNone)
+            | SCall ex =>
+                match ex with
+                | ECall fn [] =>
+                    match lookup fn e with
+                    | LFun body =>
+                        (* the body sees (and may assign) the locals visible at the call; its own locals are dropped *)
+                        do (st1, e1, _) <- scoped st e body; OK (st1, e1, SigNone)
+                    | _ => do (st1, _) <- eval f st e ex; OK (st1, e, SigNone)
+                    end
+                | _ => do (st1, _) <- eval f st e ex; OK (st1, e, SigNone)
+                end
             | SReturn None => OK (st, e, SigRet LNil)
             | SReturn (Some ex) => do (st1, v) <- eval f st e ex; OK (st1, e, SigRet v)
             | SBreak => OK (st, e, SigBreak)
